@@ -390,6 +390,22 @@ fn weight_literals() -> Vec<String> {
     ] {
         v.push(z.to_string());
     }
+    // every string of up to four characters over the characters a weight grammar is made of (a regex that lost an
+    // escape, an anchor or a quantifier accepts a short string it should not: "100", "1x0", "0.", "1.05", "-1")
+    let alphabet = ['0', '1', '5', '.', 'e', '-', '+', 'x'];
+    let mut level: Vec<String> = vec![String::new()];
+    for _ in 0..4 {
+        let mut next = Vec::with_capacity(level.len() * alphabet.len());
+        for prefix in &level {
+            for c in alphabet {
+                let mut t = prefix.clone();
+                t.push(c);
+                next.push(t);
+            }
+        }
+        v.extend(next.iter().cloned());
+        level = next;
+    }
     v
 }
 
